@@ -531,8 +531,8 @@ fn check_cli_bad_files(ctx: &Ctx, rep: &mut Report) -> Option<(String, String)> 
 }
 
 pub fn run(ctx: &Ctx) -> Report {
-    let n = ctx.size(200_000, 12_000_000) as usize;
-    let cli_n = ctx.size(150, 4_000) as usize;
+    let n = ctx.size(600_000, 12_000_000) as usize;
+    let cli_n = ctx.size(300, 4_000) as usize;
     let batches = (n + 49) / 50;
     let cli_every = (n / cli_n.max(1)).max(1);
     par_items(ctx.threads, batches + 1, ctx.seed, move |i, seed, rep| {
